@@ -96,6 +96,7 @@ type Summary struct {
 	Hashes      []string                 `json:"nontrivial_hashes"`
 	Counters    map[string]int64         `json:"counters"`
 	SimNanos    int64                    `json:"sim_nanos"`
+	SimSeconds  float64                  `json:"sim_seconds"` // (the sum of nanoseconds overflows int64 after ~292 simulated years)
 	WallS       float64                  `json:"wall_s"`
 	Violations  []SummaryViolation       `json:"violations"`
 	KnownSeen   map[string]int64         `json:"known_seen"`
@@ -337,6 +338,7 @@ func RunWorker(t *testing.T) {
 			sum.Runs++
 			sum.RunsByWorld[w.Name]++
 			sum.SimNanos += res.SimNanos
+			sum.SimSeconds += float64(res.SimNanos) / 1e9
 			for k, v := range res.Counters {
 				sum.Counters[k] += v
 			}
